@@ -80,10 +80,10 @@ Cases == CasesOrigin \cup CasesHeader \cup CasesStruct
 VARIABLES case, env
 vars == <<case, env>>
 \* the model depends on the environment only through env.target
-MCEnvs == IF Tier = "quick"
-          THEN {[mode |-> "direct", addr |-> "path", res |-> "object", target |-> "self"],
-                [mode |-> "e2e", addr |-> "vhost", res |-> "bucket", target |-> "other"]}
-          ELSE Envs
+MCEnvs == {[mode |-> "direct", addr |-> "path", res |-> "object", target |-> "self"],
+           [mode |-> "e2e", addr |-> "vhost", res |-> "bucket", target |-> "other"]}
+          \cup (IF Tier = "quick" THEN {} ELSE {[mode |-> "e2e", addr |-> "vhost", res |-> "object", target |-> "self"]})
+ASSUME MCEnvs \subseteq Envs
 Init == case \in Cases /\ env \in MCEnvs
 Next == UNCHANGED vars
 Spec == Init /\ [][Next]_vars
